@@ -58,6 +58,16 @@ def run(tier):
               bounds={"operations": n, "ids": ids, "rows_per_item": lens,
                       "payload": "symbolic unbounded ints" if fam == "unit" else "symbolic ints in {0,1} (hashed into sets)",
                       "(item_cache, bundle_cache, MAX_ROWS)": caps})
+    # removal (remove_unit_id) in third position after every two-operation prefix, and in second position
+    rm = []
+    for fam in ("unit", "avail"):
+        for cp in caps[:2]:
+            for pf in ([0, 0], [0, 1], [0, 2], [0, 3], [0, 4]):
+                rm.append(dict(family=fam, n=3 if tier == "quick" else 4, caps=cp, ids=2, lens=[1], prefix=pf, with_remove=True,
+                               xdom=[0, 1] if fam != "unit" else None))
+    b.add("unit/avail: histories with remove_unit_id: a removed item reads as absent until saved again", M, "check_loader", slices=rm,
+          pct=400 if tier == "quick" else 3000, ppt=60,
+          bounds={"operations": 3 if tier == "quick" else 4, "kinds": "save/get/export/checkpoint/remove", "(item_cache, bundle_cache, MAX_ROWS)": caps[:2]})
     b.execute()
     fault_leg(r)
     r.add_sample({"family": "UnitLevelLoader", "caps": [1, 1, 1], "history": "save(1,[x]); get(1); save(1,[y]); get(1)"})
